@@ -108,8 +108,26 @@ def gen():
         raise F.FactError("new_user no longer passes (num_left, num_right) to set_max_conn_sizes")
     cb = F.fn_body(t, "compile", rel)
     order = [cb.find(x) for x in ("self.check_if_resolved()?", "self.lexicon.validate_entries()?", "self.header.write_to(w)?", "self.write_grammar(w)?", "self.write_lexicon(w, written)?")]
+    build_bad = []
     if -1 in order or order != sorted(order):
-        raise F.FactError("DictBuilder::compile: resolved-check / validate / header / grammar / lexicon order not recognised")
+        # kept out of FactError on purpose: the model still builds (for compile as it was written for) and the differential
+        # run looks for a history on which the changed compile and the model differ
+        build_bad.append("DictBuilder::compile is no longer: check_if_resolved, validate_entries (unconditionally), header, grammar, lexicon")
+    rcb = F.fn_body(t, "read_conn", rel)
+    i_set = rcb.find("set_max_conn_sizes(")
+    m_early = re.search(r"\}\s*\?\s*;", rcb[:i_set]) if i_set >= 0 else None
+    m_late = re.search(r"\bresult\s*\?\s*;", rcb[i_set:]) if i_set >= 0 else None
+    if i_set < 0 or (m_early is None) == (m_late is None):
+        build_bad.append("DictBuilder::read_conn: where the read error is propagated relative to set_max_conn_sizes was not recognised")
+    out.append("(* read_conn hands the buffer's dimensions to the lexicon even when reading failed (the buffer keeps new dimensions) *)\n")
+    out.append("Definition conn_limits_follow_on_error : bool := %s.\n" % ("true" if (i_set >= 0 and m_late is not None and m_early is None) else "false"))
+    fixed_user = re.search(r"if\s+!self\.user\s*\{\s*self\.lexicon\s*\.set_max_conn_sizes\(", rcb) is not None
+    out.append("(* ... but only for system dictionaries: a user dictionary keeps the dimensions of its system dictionary as limits *)\n")
+    out.append("Definition conn_limits_fixed_for_user : bool := %s.\n" % ("true" if fixed_user else "false"))
+    rlb = F.fn_body(t, "read_lexicon", rel)
+    out.append("(* read_lexicon clears the `resolved` flag (rows read after resolve() may carry unresolved split units) *)\n")
+    out.append("Definition read_lexicon_clears_resolved : bool := %s.\n" % ("true" if re.search(r"self\.resolved\s*=\s*false\s*;", rlb) else "false"))
+    out.append("Definition build_unrecognised : list string := [ %s ].\n" % "; ".join('"%s"' % x for x in build_bad))
     for name in ("MAX_ARRAY_LEN", "MAX_DIC_STRING_LEN", "MAX_POS_IDS"):
         env = {"MAX_POS_IDS": F.find_const(rel, "MAX_POS_IDS")}
         out.append("Definition %s : Z := %s.\n" % (name, F.coq_int(F.find_const(rel, name, env), "Z")))
